@@ -220,12 +220,13 @@ def build(spec):
         fields['$BYTEORD'] = spec['byteord']
         fields['$DATATYPE'] = spec['datatype']
         fields['$MODE'] = spec.get('mode', 'L')
-        fields['$NEXTDATA'] = str(spec.get('nextdata', 0))
-        fields['$PAR'] = str(D)
-        fields['$TOT'] = str(N)
+        npad = spec.get('numpad') or 0        # many exporters right-justify numeric values in a fixed width
+        fields['$NEXTDATA'] = str(spec.get('nextdata', 0)).rjust(npad)
+        fields['$PAR'] = str(D).rjust(npad)
+        fields['$TOT'] = str(N).rjust(npad)
         for j in range(D):
-            fields['$P%dB' % (j + 1)] = str(spec['widths'][j])
-            fields['$P%dR' % (j + 1)] = str(spec['ranges'][j])
+            fields['$P%dB' % (j + 1)] = str(spec['widths'][j]).rjust(npad)
+            fields['$P%dR' % (j + 1)] = str(spec['ranges'][j]).rjust(npad)
             if names[j] is not None:
                 fields['$P%dN' % (j + 1)] = names[j]
             if pne[j] is not None:
